@@ -38,7 +38,6 @@ CFG_N = CFG.copy(nested="assembly")
 @st.composite
 def _case(draw, cfg, tier):
     spec = draw(gen.model_spec(cfg))
-    gen.chain_components(spec)
     return {
         "spec": spec,
         "jk": draw(st.lists(st.integers(0, 30), unique=True, min_size=1, max_size=3)),
